@@ -102,4 +102,18 @@ REG = {
   note="Trusted: TLC, the driver's rendering offsets. Diagnostic placement and messages are unpinned.",
   technique="TLA+ grammar/line specification model-checked with TLC; exhaustive replay + TLC trace validation of recorded parses",
   design="DESIGN.md section 4/C15"),
+ "C17": dict(
+  text="FBuiltins defines the string and list builtins on byte sequences and FRegex an independent regular-expression matcher "
+       "(position sets); TLC checks the laws of the statement as invariants (LawLeftRight, LawFind, LawPrefixSuffix, LawPad, "
+       "LawReplace) and computes the value of every call and law formula of the bounded family, which is replayed into the real evaluator.",
+  note="Trusted: TLC. Regular expressions are limited to the oracle's pool (72 patterns: literals, ., classes, * + ?, alternation, anchors).",
+  technique="TLA+ specification of the builtins + regex oracle model-checked with TLC; exhaustive replay into the real evaluator",
+  design="DESIGN.md section 4/C17"),
+ "C18": dict(
+  text="FBuiltins/FDecimal define abs, ceil, floor, round (either neighbour at a tie), roundBank, max, min, toInt, toFloat, finite and "
+       "the two's-complement bit operators on digit sequences; TLC checks NamesSay (defining bounds) on the specification and computes "
+       "every case of the grid family, replayed into the real evaluator; toString is checked through toFloat(toString(x)) === x.",
+  note="Trusted: TLC, FDecimal. sqrt/exp/ln/log to 15 digits are not decided yet (planned: bracket checks by trace validation).",
+  technique="TLA+ decimal-arithmetic specification model-checked with TLC; exhaustive grid replay into the real evaluator",
+  design="DESIGN.md section 4/C18"),
 }
